@@ -134,6 +134,45 @@ fn gen(a: &Args) {
             }
         }
     }
+    // (2e) TEXT: every string of up to three characters over an alphabet of the characters that formatting,
+    // escaping and comparison treat specially (quotes, backslash, control characters, combining mark, zero-width
+    // space, 2-/3-/4-byte characters) — validity, every view and Debug/Display/Hash/serde against `str`; and every
+    // ordered pair of up to two characters for comparison
+    let text: [&str; 16] = ["a", "Z", " ", "\\", "\"", "'", "\n", "\t", "\r", "\u{7f}", "\u{e9}", "\u{301}", "\u{200b}", "\u{20ac}", "\u{1f600}", "\u{0}"];
+    writeln!(w, "case text-views").unwrap();
+    let mut words: Vec<String> = vec![String::new()];
+    let mut frontier = vec![String::new()];
+    for _ in 0..3 {
+        let mut next = vec![];
+        for p in &frontier {
+            for c in text {
+                next.push(format!("{p}{c}"));
+            }
+        }
+        words.extend(next.iter().cloned());
+        frontier = next;
+    }
+    for s in &words {
+        writeln!(w, "valid {}", hex(s.as_bytes())).unwrap();
+    }
+    let short: Vec<&String> = words.iter().filter(|s| s.chars().count() <= 2).collect();
+    let step = if thorough { 1 } else { 7 };
+    let mut k = 0usize;
+    for (i, x) in short.iter().enumerate() {
+        writeln!(w, "case text-cmp-{i}").unwrap();
+        writeln!(w, "tryfrom {}", hex(x.as_bytes())).unwrap();
+        let mut idx = 1;
+        for y in short.iter() {
+            k += 1;
+            if k % step != 0 && !(y.starts_with(x.as_str()) || x.starts_with(y.as_str())) {
+                continue;
+            }
+            writeln!(w, "tryfrom {}", hex(y.as_bytes())).unwrap();
+            writeln!(w, "cmp 0 {idx}").unwrap();
+            writeln!(w, "cmp {idx} 0").unwrap();
+            idx += 1;
+        }
+    }
     // (2d) Display with width / precision / fill / alignment agrees with str
     let mut n = 0;
     for s in ["", "a", "ab", "aéb", "€uro", "😀", "a😀é€b", "abcdefgh"] {
@@ -518,7 +557,10 @@ fn run(a: &Args) {
                     let o = st[x].cmp(&st[y]);
                     let so: &str = &st[x];
                     let want = so.cmp(&st[y]);
-                    if o != want || st[x].partial_cmp(&st[y]) != Some(want) || (st[x] == st[y]) != (want == std::cmp::Ordering::Equal) {
+                    let (a, b) = (&st[x], &st[y]);
+                    let ops_agree = (a < b) == (so < &**b) && (a <= b) == (so <= &**b) && (a > b) == (so > &**b) && (a >= b) == (so >= &**b)
+                        && a.clone().max(b.clone()) == *std::cmp::max(so, &**b) && a.clone().min(b.clone()) == *std::cmp::min(so, &**b);
+                    if !ops_agree || o != want || st[x].partial_cmp(&st[y]) != Some(want) || (st[x] == st[y]) != (want == std::cmp::Ordering::Equal) {
                         rep.t3("C20", &format!("cmp of {} and {} differs from str", hex(st[x].as_bytes()), hex(st[y].as_bytes())));
                     }
                     match o {
